@@ -3,11 +3,11 @@
 import json, os, subprocess, sys
 V = os.path.dirname(os.path.dirname(os.path.abspath(__file__)))
 sys.path.insert(0, V)
-from checks import CHECKS, HOOK_COMMITS, NOT_APPLICABLE
+from checks import CHECKS, HOOK_COMMITS, NOT_APPLICABLE, READY
 props = [json.loads(l)["id"] for l in open(os.path.join(V, "properties.jsonl"))]
 checks = []
 for pid in props:
-    if pid not in CHECKS or CHECKS[pid].get("disabled"):
+    if pid not in CHECKS or CHECKS[pid].get("disabled") or pid not in READY:
         continue
     c = CHECKS[pid]
     checks.append({
